@@ -58,7 +58,16 @@ def _worker(args):
             s.add(f)
         out["requires_sat"] = str(s.check())
     timeout = 20000 if tier == "quick" else 120000
-    for i, ob in enumerate(res.obligations):
+    all_obligations = list(res.obligations)
+    if res.error is None:
+        bc, bfi = verify.find_base_contract(I, c, fi)
+        if bc is not None:
+            rres = verify.verify_refinement(I, c, fi, bc, bfi)
+            if rres.error:
+                out["error"] = rres.error
+            all_obligations += rres.obligations
+            out["refines"] = bc.key
+    for i, ob in enumerate(all_obligations):
         rec = {"name": ob.name, "kind": ob.meta.get("kind"), "props": list(ob.meta.get("props") or c.props),
                "clause": ob.meta.get("clause"), "path": ob.meta.get("path"), "func": key}
         if ob.meta.get("trivial"):
